@@ -220,7 +220,7 @@ fn judge_behaviour(ctx: &mut Ctx, path: &str, a: &ValueSet, b: &ValueSet, input:
     let mut masked = 0;
     while let Some((k, method, arg, x, y)) = battery::first_difference(&w2, &g2) {
         // an answer that an in-memory construction of the same value gives too (hash iteration order)
-        if masked < 8 && battery::original_also_answers(a, &args, k, &y, 64) {
+        if masked < 256 && battery::construction_dependent(a, &args, k, &x, &y, 64) {
             ctx.rep.count(&format!("battery:construction-dependent:{name}:{method}"));
             w2[k].2.clear();
             g2[k].2.clear();
